@@ -56,18 +56,20 @@ CHECKS = {
  'C13': dict(seed_offset=13, level='exploration', rule=RULE_A, props=['C13'],
              batches=[dict(profile='svx', flavour='plain', quick=40000, thorough=2000000)],
              must_probe=['svx_berr_checked', 'svx_berr_small_checked', 'svx_ferr_checked']),
- 'C08': dict(seed_offset=8, level='exploration', rule=RULE_A + "; a case here is a history of 2..8 operations over one sparsity pattern (first factorization, refactorizations with new values and optional pivot reuse, solves with existing factors, destroy + first factorization again), nprocs/strategy/schedule drawn anew per operation; a fifth of the histories starts from an exactly singular first factorization (zero column, zero row or two equal columns; info in 1..n with factors and perm_r handed back) made by 2..4 threads, mostly with one of them held back, and then refactorizes nonsingular values, mostly with pivot reuse at u = 0 or 0.01",
+ 'C08': dict(seed_offset=8, level='exploration', rule=RULE_A + "; a case here is a history of 2..8 operations over one sparsity pattern (first factorization, refactorizations with new values and optional pivot reuse, solves with existing factors, destroy + first factorization again), nprocs/strategy/schedule drawn anew per operation; the `alloc` batch adds C14's two-call configurations (re-factorization / factor reuse in a caller workspace of every boundary size, with more threads than the first call); a fifth of the histories starts from an exactly singular first factorization (zero column, zero row or two equal columns; info in 1..n with factors and perm_r handed back) made by 2..4 threads, mostly with one of them held back, and then refactorizes nonsingular values, mostly with pivot reuse at u = 0 or 0.01",
              props=['C08', 'C01', 'C02', 'C09', 'C07'],
-             batches=[dict(profile='hist', flavour='plain', quick=25000, thorough=1500000), dict(profile='hist', flavour='asan', quick=2500, thorough=100000), dict(profile='hist', flavour='long', quick=4000, thorough=200000), dict(profile='hist', flavour='omp', quick=4000, thorough=200000)],
+             batches=[dict(profile='hist', flavour='plain', quick=25000, thorough=1500000), dict(profile='hist', flavour='asan', quick=2500, thorough=100000), dict(profile='hist', flavour='long', quick=4000, thorough=200000), dict(profile='hist', flavour='omp', quick=4000, thorough=200000), dict(profile='alloc', flavour='plain', quick=128 * 20, thorough=1024 * 100, S=128, S_thorough=1024)],
              must_probe=['refactorizations', 'factored_calls', 'factor_reuse_solves_checked', 'usepr_all_old_pivots_pass', 'usepr_old_pivot_fails', 'user_workspace_calls', 'refactorizations_after_singular_factorization', 'pivot_reuse_after_singular_factorization']),
  'C14': dict(seed_offset=14, level='fault_enumeration',
-             rule=("enumerating profile: configuration = seed div 128 (pattern, values, precision, driver, nprocs 1..4, tunables); item = seed mod 128: 0 fault-free baseline (counts the K allocator "
+             rule=("enumerating profile: configuration = seed div 128 (pattern, values, precision, driver, nprocs 1..4, tunables; 40 % of the configurations are two-call configurations: a fault-free first factorization through the expert driver "
+                   "followed by the call under test, which is a re-factorization with new values (pivot reuse or not, often with more threads than the first call) or a solve with fact = FACTORED - faults, query and workspace sizes then refer to that second call, "
+                   "the caller workspace being the one handed to the first call); item = seed mod 128: 0 fault-free baseline (counts the K allocator "
                    "requests of the driver call), 1 workspace query, 2 sufficient caller workspace, then for k = 1..48 (and a seeded sample of larger k) 'fail request k and all later ones' and 'fail only request k', "
                    "then caller-workspace sizes at cumulative boundaries of a sufficient run +- one word (always including the peak) and seeded sizes; thorough tier: 1024 items per configuration, i.e. every k. "
                    "A case is non-trivial if it has >= 2 worker threads, >= 2 columns and a scheduling decision; distinct = distinct (H_sched, H_obs)"),
              props=['C14', 'C01', 'C02', 'C07', 'C09', 'C05', 'C04', 'C12', 'C13', 'C17'],
              batches=[dict(profile='alloc', flavour='plain', quick=128 * 60, thorough=1024 * 400, S=128, S_thorough=1024), dict(profile='alloc', flavour='asan', quick=128 * 12, thorough=1024 * 40, S=128, S_thorough=1024), dict(profile='alloc', flavour='omp', quick=128 * 12, thorough=1024 * 40, S=128, S_thorough=1024)],
-             must_probe=['alloc_mode_3', 'alloc_mode_4', 'alloc_mode_5', 'workspace_queries', 'abort_under_fault', 'returned_info_gt_n', 'workspace_size_sufficient_after_all', 'user_workspace_calls', 'alloc_returns_leak_checked'],
+             must_probe=['alloc_mode_3', 'alloc_mode_4', 'alloc_mode_5', 'alloc_second_call_refactorization', 'alloc_second_call_factored', 'workspace_queries', 'abort_under_fault', 'returned_info_gt_n', 'workspace_size_sufficient_after_all', 'user_workspace_calls', 'alloc_returns_leak_checked'],
              assumptions=["a call that returns info = 0 after an injected failure is accepted only if its result passes the full oracles (counted as succeeded_despite_failed_request)",
                           "allocator requests are counted inside the driver call only (orderings computed by get_perm_c before the call are outside the armed window)"]),
  'C16': dict(seed_offset=16, level='exploration', rule=RULE_A + "; patterns have a full diagonal (half of them symmetrized), values are row- and column-diagonally dominant, SymmetricMode = YES, u = 0, ordering MMD on A'+A (85 %; other orderings are co-observed only)",
